@@ -232,7 +232,7 @@ def make_judges(ctx, conv_max_word=24):
 def floors(tier):
     return [(op, k) for op in REL for k in ('Fxp', 'number', 'array')] + [('ufunc', n) for n in ('less', 'less_equal', 'equal', 'not_equal', 'greater', 'greater_equal')] + \
            [('ufunc-left', k) for k in ('float64', 'array', 'Fxp')] + [('conv1', '__float__'), ('conv1', '__int__'), ('cmp-config',)] + \
-           [('conv', w) for w in ('get_val', 'astype(float)', 'astype(int)', '__float__', '__int__', '__bool__', 'raw', 'uraw')] + [('element-read', 'item'), ('element-read', 'index'), ('read-then-read',)]
+           [('conv', w) for w in ('get_val', 'astype(float)', 'astype(int)', '__float__', '__int__', '__bool__', 'raw', 'uraw')] + [('element-read', 'item'), ('element-read', 'index'), ('read-then-read',), ('cmp-integer-beyond-doubles',)]
 
 
 def cases(tier, seed):
@@ -347,6 +347,7 @@ def run_case(case, ctx):
                 _try(f_)
     vy = F(cy) * R.lsb(fy[2])
     rels = [operator.lt, operator.le, operator.eq, operator.ne, operator.gt, operator.ge]
+    xa_big = lambda b_: Fxp([cx, cx], fx[0], fx[1], fx[2], raw=True) < b_
     for r in rels:
         _try(lambda: r(x, y))
     # operands carrying non-default configuration (the relation is about the stored values whatever the array / operation settings are)
@@ -364,6 +365,14 @@ def run_case(case, ctx):
     for r in rels:
         _try(lambda: r(x, num))
         _try(lambda: r(num, x))
+    # python integers of any size are plain numbers: beyond 2^63, and beyond the range of doubles (either sign, either side)
+    if (i // 3) % 4 == 0:
+        for big in (2 ** 64 + 1, -(2 ** 70), 2 ** 1024, -(10 ** 309), 10 ** 400 + 1):
+            for r in rels:
+                _try(lambda: r(x, big))
+                _try(lambda: r(big, x))
+            _try(lambda: xa_big(big))
+        ctx.floor_hit(('cmp-integer-beyond-doubles',))
     # NumPy numbers on the left (NumPy hands the relation to the fixed-point object), and the NumPy functions themselves
     if i % 2 == 0:
         npnum = rng.choice([np.float64(num), np.float64(num), np.array(float(num)), np.float32(num) if F(float(np.float32(num))) == vy else np.float64(num),
